@@ -20,6 +20,7 @@ class RealSteps:
     def __init__(self, K=2):
         self.K = K
         self.budget = None
+        self.dead = False
         self.steps = 0
         self.lock = threading.Condition()
         self.writers = {}          # thread ident -> state dict
@@ -42,9 +43,11 @@ class RealSteps:
                 w["pending"] = None
                 w["done_paths"].append(path)
             return
+        if self.dead:
+            raise Crash()
         if self.budget is not None:
             if self.budget <= 0:
-                self.budget = None
+                self.dead = True
                 raise Crash()
             self.budget -= 1
         self.steps += 1
@@ -219,6 +222,43 @@ class RealSteps:
         env._set(cp, "pickle", PickleProxy())
         env._set(cp, "open", self.open)
         env._set(cp, "time", ClockProxy())
+
+
+def install_farming(rs, env, fm, mg):
+    """coarse real-disk steps for the farming layer: remove / replace are one step each; a save is two
+    steps (a kill after the first leaves a truncated file under the name being written)"""
+    import xyzpy.manage as manage
+
+    class OSProxy:
+        def __getattr__(self, name):
+            return getattr(os, name)
+
+        def remove(self, p):
+            rs._step(p)
+            os.remove(p)
+
+        def replace(self, a, b):
+            rs._step(b)
+            os.replace(a, b)
+
+    def wrap_save(real, namer):
+        def save(obj, name, *a, **k):
+            rs._step(name)
+            real(obj, name, *a, **k)
+            try:
+                rs._step(name)
+            except Crash:
+                target = namer(name, *a, **k)
+                size = os.path.getsize(target)
+                with open(target, "r+b") as f:
+                    f.truncate(size // 2)
+                raise
+        return save
+
+    env._set(fm, "os", OSProxy())
+    env._set(fm, "save_ds", wrap_save(fm.save_ds, lambda name, *a, **k: manage.auto_add_extension(
+        name, k.get("engine", a[0] if a else "h5netcdf"))))
+    env._set(fm, "save_df", wrap_save(fm.save_df, lambda name, *a, **k: name))
 
 
 class _WFile:
